@@ -267,6 +267,34 @@ def run_fixed(desc):
                         out.violation({'mode': 'fixed', 'call': '%s(%r).%s(%r, flags=%d)' % (cls.__name__, name, meth, pat, extra), 'impl': bool(got),
                                        'want': want, 'problem': 'platform rules are fixed by the path class'}, bucket=('platform', cls.__name__, extra))
             out.nontrivial(('platform', cls.__name__, name))
+        # special directories: pathlib folds `d/.` into `d`, so whenever a pattern can reach both spellings the results must be
+        # de-duplicated (unless NOUNIQUE), whatever other flags are set
+        dot_flags = ['SCANDOTDIR', 'DOTGLOB', 'GLOBSTAR', 'NODOTDIR', 'EXTGLOB', 'NOUNIQUE', 'MATCHBASE']
+        dot_pats = ['.*', '*', '.*/.*', '*/.*', '@(.|d)', '.', './*', '*/.', '**/.*', '**/.', '?*', '.*/', '@(.|..|a)', '*/*', '**', '.hd/.*']
+        with FC.built_tree([('f', 'a'), ('d', 'd'), ('f', 'd/a'), ('d', '.hd'), ('f', '.hd/x'), ('d', 'd/deep'), ('f', '.h')]) as (droot, _r2):
+            drp = WP.Path(droot)
+            for pat in dot_pats:
+                for i in range(1 << len(dot_flags)):
+                    names = [n for j, n in enumerate(dot_flags) if i >> j & 1]
+                    fl = util.flags_of(names, util.GL_FLAGS)
+                    for meth in ('glob', 'rglob'):
+                        out.evaluations += 1
+                        try:
+                            res = list(getattr(drp, meth)(pat, flags=fl))
+                        except Exception as e:
+                            out.violation({'mode': 'fixed', 'call': 'Path.%s(%r, flags=%s)' % (meth, pat, '|'.join(names)), 'impl': type(e).__name__,
+                                           'problem': 'exception'}, bucket=('dots-exc', meth))
+                            continue
+                        dup = sorted(str(x) for x in set(res) if res.count(x) > 1)
+                        if dup and 'NOUNIQUE' not in names:
+                            out.violation({'mode': 'fixed', 'call': 'Path.%s(%r, flags=%s)' % (meth, pat, '|'.join(names)),
+                                           'name': os.path.relpath(dup[0], droot), 'problem': 'a path is yielded twice'}, bucket=('dots-dup', meth))
+                        if meth == 'glob':
+                            gres = G.glob(pat, flags=fl, root_dir=droot)
+                            if {drp / x for x in gres} != set(res):
+                                out.violation({'mode': 'fixed', 'call': 'Path.glob(%r, flags=%s)' % (pat, '|'.join(names)),
+                                               'problem': 'Path.glob differs from glob.glob(root_dir=...)'}, bucket=('dots-glob',))
+                out.nontrivial(('dots', pat))
         # a non-directory Path globs nothing
         out.evaluations += 1
         if list((rp / 'a').glob('*')):
